@@ -171,6 +171,7 @@ func computeSummary(i *interpreter, caller *frame, fn *ssa.Function, args []valu
 	w := kindWidth(as.k)
 	var formal *Term
 	if w == 32 && as.k == types.Int32 {
+		sx.candHint = runeCands(0, 0x10FFFF)
 		formal = sx.NewVar(fmt.Sprintf("sumarg%d", summaryN), 32, uint64(domainRanges()[0][0]), func(v *Term) *Term { return runeDomainTerm(v, 0, 0x10FFFF) })
 	} else {
 		formal = sx.NewVar(fmt.Sprintf("sumarg%d", summaryN), w, 0, nil)
